@@ -453,7 +453,13 @@ def glue_contextlib() -> None:
                     )
             else:
                 try:
-                    frame = _extract.extract_outermost(mgr.gen)
+                    # (with the options of the extraction we're part of,
+                    # like the extract_child() in the other case)
+                    frame = _extract.extract_outermost(
+                        mgr.gen,
+                        with_contexts=_extract.current_options.with_contexts,
+                        recurse_child_tasks=_extract.current_options.recurse_child_tasks,
+                    )
                 except RuntimeError:  # no frames
                     pass
                 else:
